@@ -9,6 +9,9 @@ compiled with ASan+UBSan:
      over an in-memory image and a toy codec; `sqfsmodel c05` answers the same lines; status classes must agree.
      `sqfsmodel c05 current` (the unrepaired logic) says, per line, whether the current code leaves a buffer
      (UNSAFE): a crash or a disagreement it predicts is the recorded defect, anything else is a violation.
+     The generators are themselves under test: `sqfsmodel c05 sens` answers every line also with the mutated models of
+     lean/Sqfs/Model/ReaderMut.lean (each modelled comparison moved by one); every mutant must be told apart by the
+     deterministic boundary groups (SENS_FLOOR), every decompressor class must be produced (CODEC_FLOORS).
   B. walk level — random directory graphs (cycles, shared sub-directories) forged into images; rdsquashfs -d and
      sqfs2tar against `readTree` / `tarWalk` of the model (node count / LINK_LOOP / divergence).
   C. tool level — images from the independent forge (tools/sqfs_forge_c05.py) and from the real gensquashfs, mutated
@@ -202,6 +205,43 @@ def gen_inode_lines(rng):
         sz = pick(rng, [0, 1, 5, 255, 256, 1000, 0xFFFF])
         blob = struct.pack("<HhHH", 0, 0, 1, sz) + bytes(rng.randrange(1, 256) for _ in range(pick(rng, [0, sz, sz + 1, sz + 2, 3]) % 8000))
         lines.append("dirent " + hx(blob))
+    return lines
+
+
+def dir_ext_blob(sizes, dsz=3, cnt=None):
+    """extended directory inode (type 8) with index entries whose `size` fields are `sizes` (name = size + 1 bytes)"""
+    base = struct.pack("<HHHHII", 8, 0o755, 0, 0, 5, 1)
+    body = struct.pack("<IIIIHHI", 2, dsz, 0, 0, len(sizes) if cnt is None else cnt, 0, 0xFFFFFFFF)
+    for sz in sizes:
+        body += struct.pack("<III", 0, 0, sz) + bytes(0x41 + i % 26 for i in range(sz + 1))
+    return base + body
+
+
+def gen_inode_boundary_lines():
+    """Deterministic (no rng): the index growth loop of read_inode_dir_ext, `sizeof(ent) + ent.size + 1 > new_sz - index_used`,
+    with the left side at remaining - 1, remaining, remaining + 1 for every capacity 128 << k that fits one metadata block,
+    with index_used = 0 and > 0, growth by one and by several doublings.  (seeded C05-a1 shows only at `remaining + 1`
+    after the comparison; before this sweep the random generator produced that value in about one run of four.)"""
+    lines = []
+    hdr = 13                                           # sizeof(sqfs_dir_index_t) + the byte the size field does not count
+    caps = [128, 256, 512, 1024, 2048, 4096]
+    for cap in caps:
+        for d in (-1, 0, 1):
+            # one entry against the initial 128 bytes / grown to `cap` in one go: need = cap + d
+            need = cap + d
+            lines.append("inode 4096 " + hx(dir_ext_blob([need - hdr])))
+            # a first entry of 50 bytes, then one that needs exactly what is left (+d) in `cap`
+            if cap - 50 + d >= hdr:
+                lines.append("inode 4096 " + hx(dir_ext_blob([50 - hdr, cap - 50 + d - hdr])))
+            # fill `cap` exactly with equal entries, the last one +d
+            n = cap // 32
+            lines.append("inode 131072 " + hx(dir_ext_blob([32 - hdr] * (n - 1) + [32 + d - hdr])))
+    # entry that fits exactly after a growth caused by the entry before it
+    lines.append("inode 4096 " + hx(dir_ext_blob([140 - hdr, 256 - 140 - hdr, 0])))
+    lines.append("inode 4096 " + hx(dir_ext_blob([140 - hdr, 256 - 140 + 1 - hdr, 0])))
+    # size 0 of the listing: no index is read at all; count larger than what the block holds
+    lines.append("inode 4096 " + hx(dir_ext_blob([116], dsz=0)))
+    lines.append("inode 4096 " + hx(dir_ext_blob([116], cnt=2)))
     return lines
 
 
@@ -633,6 +673,233 @@ def gen_dentry_lines(rng):
         lines.append("dentry %d %d %d %d %s" % (used, ui, gi, ln, hx(name)))
     return lines
 
+# ---------------------------------------------------------------- deterministic boundary groups
+# One group per family of modelled comparisons: the two values around every comparison are produced here *without* the
+# random generator, so that the generator self-test (`sqfsmodel c05 sens`, SENS_FLOORS below) holds for every seed.
+def det_bytes(n, k=7):
+    return bytes((i * k + i // 251) % 251 + 1 for i in range(n))
+
+
+def gen_meta_boundary_group():
+    """meta reader: window, cached block, block size 8192/8193, block end against the limit, offsets at data_used -1/0,
+    read of available - 1 bytes, read across the end of a block"""
+    pad = bytes(96)
+    b1 = mblock(det_bytes(100))                              # at 96, ends at 198
+    b2 = mblock(det_bytes(8192, 11))                         # at 198, ends at 8392
+    b3 = mblock_toy(b"toy-data", 50)                         # at 8392
+    b4at = 96 + len(b1) + len(b2) + len(b3)
+    b4 = struct.pack("<H", 0x8000 | 8193) + det_bytes(8193, 3)   # announces one byte more than a block may hold
+    img = pad + b1 + b2 + b3 + b4
+    end = len(img)
+    L = ["img " + hx(img), "mr 96 %d" % end,
+         "seek 95 0", "seek 96 0", "seek 96 99", "seek 96 100", "seek 96 0",          # window start; cached block: data_used - 1, data_used
+         "seek 198 8191", "seek 96 100", "seek 198 8191", "seek 198 8192",            # freshly loaded block: data_used - 1, data_used
+         "seek 198 0", "seek %d 0" % b4at, "seek 8392 49", "seek 8392 50",           # 8192 / 8193 byte block; toy block
+         "seek %d 0" % end, "seek %d 0" % (end - 1), "seek %d 0" % (end - 2),          # window end
+         "seek 96 0", "read 99", "read 1", "read 1",                                  # one byte less than buffered; exactly the rest; next block
+         "seek 96 0", "read 100", "read 8192", "read 51", "read 1",                   # whole blocks, into the toy block and beyond it
+         "seek 96 50", "read 8242", "seek 198 8191", "read 2"]
+    for lim in (198, 197, 199):                                                        # block ends at limit, limit + 1, limit - 1
+        L += ["mr 96 %d" % lim, "seek 96 0", "read 100", "read 1"]
+    for lim in (8392, 8391):                                                           # the implicit seek of a read meets the limit
+        L += ["mr 96 %d" % lim, "seek 96 0", "read 8292", "read 1"]
+    return L
+
+
+def gen_data_boundary_lines():
+    """data reader: on-disk size against the buffer (bs, bs + 1; tail, tail + 1), fragment window (frag_off + size = bs, bs + 1;
+    frag_blk_size - frag_off = size, size - 1; frag_off = frag_blk_size + 1), file size bs - 1 / bs / bs + 1, read sizes and
+    offsets at every clip point"""
+    bs = 4096
+    U = 1 << 24
+    img = bytearray(det_bytes(4 * bs + 300))
+    img[5000:5002] = b"\xff\xff"                           # a `compressed' block whose payload the toy codec refuses
+    L = ["img " + hx(img)]
+    F100 = U | 100                                          # fragment block of 100 bytes at offset 0
+    FBS = U | bs
+    for w, fsz in ((U | bs, bs), (U | (bs + 1), bs), (U | (bs - 1), bs), (U | 100, 100), (U | 101, 100), (U | 99, 100), (U | bs, 2 * bs)):
+        L.append("getblk %d %d 0 0 %d" % (bs, fsz, w))
+    L.append("getblk %d %d 0 1 %d,%d" % (bs, bs + 100, U | bs, U | 100))
+    L.append("getblk %d %d 0 1 %d,%d" % (bs, bs + 100, U | bs, U | 101))
+    # get_fragment: blocks cover the file exactly / one byte short; fragment ends at bs, bs + 1
+    for fsz, nblk, fidx, foff, fw in ((bs + 1, 1, 0, 0, FBS), (bs, 1, 0, 0, FBS), (bs, 1, 1, 0, FBS), (bs - 1, 1, 0, 0, FBS), (bs + 100, 1, 0, bs - 100, FBS),
+                                      (bs + 100, 1, 0, bs - 99, FBS), (bs + 100, 1, 0, bs - 101, FBS), (100, 0, 0, 0, F100), (100, 0, 0, 1, F100),
+                                      (bs + 100, 1, 0, 2 ** 32 - 100, FBS), (bs + 100, 1, 0, 2 ** 32 - 99, FBS), (bs + 100, 1, 1, 0, FBS)):
+        L.append("getfrag %d %d %d %d %d 0 %d" % (bs, fsz, nblk, fidx, foff, fw))
+    # stream: block words
+    for ws, fsz in (([U | bs, U | bs], 2 * bs), ([U | bs, U | (bs + 1)], 2 * bs), ([U | (bs - 1)], bs - 1), ([U | bs], bs), ([U | bs, U | 1], bs + 1),
+                    ([U | (bs - 1)], bs), ([0, U | bs], 2 * bs), ([U | 100], 100), ([U | 101], 100)):
+        L.append("stream %d %d 0 0 0 0 %d %s" % (bs, fsz, FBS, ",".join(map(str, ws))))
+    # stream: tail in a fragment block of 100 bytes
+    for fsz, foff in ((50, 50), (50, 51), (50, 49), (50, 100), (50, 101), (50, 102), (100, 0), (100, 1), (101, 0), (bs + 50, 50), (bs + 50, 51)):
+        ws = [U | bs] if fsz > bs else []
+        L.append("stream %d %d %d 0 %d 0 %d %s" % (bs, fsz, 200 if ws else 0, foff, F100, ",".join(map(str, ws)) or "-"))
+    L.append("stream %d 50 0 1 0 0 %d -" % (bs, F100))
+    # data_reader_read
+    full2 = "%d,%d" % (U | bs, U | bs)
+    for fsz, foff, fw, off, size, ws in (
+            (100, 0, F100, 99, 1, "-"), (100, 0, F100, 100, 1, "-"), (100, 0, F100, 98, 1, "-"),              # offset against file size
+            (100, 0, F100, 0, 100, "-"), (100, 0, F100, 0, 101, "-"), (100, 0, F100, 0, 99, "-"), (100, 0, F100, 1, 100, "-"),
+            (101, 0, F100, 0, 101, "-"), (101, 0, F100, 0, 100, "-"), (101, 0, F100, 1, 100, "-"),             # fragment block shorter than the tail
+            (100, 1, F100, 0, 100, "-"), (100, 1, F100, 0, 99, "-"), (99, 1, F100, 98, 1, "-"), (100, 1, F100, 99, 1, "-"),
+            (2 * bs, 0, F100, 0, bs - 1, full2), (2 * bs, 0, F100, 0, bs, full2), (2 * bs, 0, F100, 0, bs + 1, full2),
+            (2 * bs, 0, F100, 1, bs - 1, full2), (2 * bs, 0, F100, 1, bs, full2),
+            (2 * bs, 0, F100, bs - 1, 2, full2), (2 * bs, 0, F100, bs, 2, full2), (2 * bs, 0, F100, bs + 1, 2, full2), (2 * bs, 0, F100, 2 * bs - 1, 2, full2),
+            (2 * bs + 100, 0, F100, 2 * bs - 1, 101, full2), (2 * bs + 100, 0, F100, 2 * bs, 100, full2), (2 * bs + 100, 0, F100, 2 * bs + 1, 100, full2),
+            (2 * bs + 100, 0, F100, 0, 2 * bs + 100, full2), (2 * bs + 100, 0, F100, 0, 2 * bs + 101, full2)):
+        L.append("dread %d %d 200 0 %d 0 %d %d %d %s" % (bs, fsz, foff, fw, off, size, ws))
+    # first block cannot be unpacked, second one is fine: a read that starts exactly at the block boundary
+    bad = "%d,%d" % (10, U | bs)
+    for off in (bs - 1, bs, bs + 1):
+        L.append("dread %d %d 5000 0 0 0 %d %d 10 %s" % (bs, 2 * bs, F100, off, bad))
+    return L
+
+
+def gen_inode_misc_boundary_lines():
+    """symlink target / file block list allocations, directory entries, unpack_dir_index_entry at its three comparisons"""
+    L = []
+    base = lambda t: struct.pack("<HHHHII", t, 0o644, 0, 0, 5, 7)
+    for n in (0, 1, 5, 255):
+        L.append("inode 4096 " + hx(base(3) + struct.pack("<II", 1, n) + det_bytes(n)))
+        L.append("inode 4096 " + hx(base(10) + struct.pack("<II", 1, n) + det_bytes(n) + struct.pack("<I", 0xFFFFFFFF)))
+    L.append("inode 4096 " + hx(base(3) + struct.pack("<II", 1, 6) + det_bytes(5)))                       # target cut short
+    for fsz, fi, nw in ((4096 * 2 + 5, 0xFFFFFFFF, 3), (4096 * 2 + 5, 0, 2), (4096 * 2, 0xFFFFFFFF, 2), (1, 0xFFFFFFFF, 1), (0, 0xFFFFFFFF, 0), (4096 * 2 + 5, 0xFFFFFFFF, 2)):
+        L.append("inode 4096 " + hx(base(2) + struct.pack("<IIII", 0, fi, 0, fsz) + struct.pack("<I", 1 << 24 | 4096) * nw))
+        L.append("inode 4096 " + hx(base(9) + struct.pack("<QQQIIII", 0, fsz, 0, 1, fi, 0, 0xFFFFFFFF) + struct.pack("<I", 1 << 24 | 4096) * nw))
+    for sz, have in ((0, 1), (4, 5), (255, 256), (4, 4), (256, 257)):
+        L.append("dirent " + hx(struct.pack("<HhHH", 0, 0, 1, sz) + det_bytes(have)))
+    rec = lambda sz, n: struct.pack("<III", 7, 9, sz) + det_bytes(n)
+    for used, idx, blob in ((16, 0, rec(3, 4)), (15, 0, rec(3, 4)), (17, 0, rec(3, 5)), (12, 0, rec(0, 0)), (13, 0, rec(0, 1)), (11, 0, rec(0, 0)[:11]),
+                            (11, 0, rec(0, 1)), (0, 0, rec(0, 1)), (1, 0, rec(0, 1)),
+                            (32, 1, rec(3, 4) + rec(3, 4)), (31, 1, rec(3, 4) + rec(3, 4)), (28, 1, rec(3, 4) + rec(3, 4)), (27, 1, rec(3, 4) + rec(3, 4)),
+                            (16, 1, rec(3, 4) + rec(3, 4)), (17, 1, rec(3, 4) + rec(3, 4)), (32, 2, rec(3, 4) + rec(3, 4))):
+        L.append("unpack %d %d %s" % (used, idx, hx(blob)))
+    return L
+
+
+def gen_super_boundary_lines():
+    L = []
+    for bs, log, comp in ((4096, 12, 1), (1 << 20, 20, 6), (2048, 11, 1), (1 << 21, 21, 1), (4096, 12, 0), (4096, 12, 7), (8192, 12, 1), (4096, 13, 1),
+                          (4096, 11, 1), (1 << 20, 21, 1), (4095, 12, 1), ((1 << 20) + 1, 20, 1), (0, 12, 1)):
+        f = {"magic": 0x73717368, "inode_count": 5, "mtime": 0, "block_size": bs, "frag_count": 1, "comp": comp, "log": log, "flags": 0, "id_count": 1,
+             "vmaj": 4, "vmin": 0, "root": 0, "used": 4096, "idt": 3000, "xat": 2 ** 64 - 1, "ino": 96, "dts": 1000, "fts": 2000, "ets": 2 ** 64 - 1}
+        L.append("super " + hx(pack_super(f)))
+    return L
+
+
+def gen_table_boundary_lines():
+    """id table / fragment table: every start field one below, at and one above the field it is compared with; index = count - 1,
+    count"""
+    L = []
+    import random as _r
+    r0 = _r.Random(1)
+    # id table: 3 ids in one block
+    raw = struct.pack("<III", 0, 1000, 65534)
+    img, lower, start, locs = table_image(r0, raw)
+    img += bytes(16)
+    used = len(img)
+    for fields in (dict(), dict(bytes_used=start + 1), dict(bytes_used=start), dict(bytes_used=start + 8), dict(idt=used - 1, bytes_used=used), dict(idt=used, bytes_used=used),
+                   dict(dts=locs[0]), dict(dts=locs[0] + 1), dict(fts=locs[0]), dict(fts=locs[0] + 1), dict(ets=locs[0] + 1), dict(id_count=4), dict(id_count=2)):
+        f = dict(id_count=3, bytes_used=used, idt=start, dts=lower)
+        f.update(fields)
+        L += ["img " + hx(img), sb_line(**f), "idtable"] + ["idx %d" % i for i in (0, 2, 3, 4, 0xFFFF)]
+    # fragment table: 2 entries; layout: pad | block | locations (fts) | 16 bytes | id table start
+    raw = struct.pack("<QIIQII", 96, 1 << 24 | 100, 0, 500, 200, 0)
+    img, lower, start, locs = table_image(r0, raw)
+    idt = len(img) + 16
+    img += bytes(48)
+    used = len(img)
+    for fields in (dict(), dict(bytes_used=start + 1), dict(bytes_used=start), dict(dts=start), dict(dts=start + 1), dict(dts=start - 1), dict(dts=locs[0] + 1),
+                   dict(idt=start + 1), dict(idt=start), dict(idt=start + 2), dict(ets=start), dict(ets=start - 1), dict(ets=start + 1), dict(frag_count=3), dict(frag_count=1),
+                   dict(frag_count=0), dict(flags=0x10), dict(fts=2 ** 64 - 1)):
+        f = dict(frag_count=2, bytes_used=used, idt=idt, dts=lower, fts=start)
+        f.update(fields)
+        L += ["img " + hx(img), sb_line(**f), "fragtable"] + ["fragidx %d" % i for i in (0, 1, 2, 3, 0xFFFFFFFF)]
+    return L
+
+
+def gen_xattr_boundary_group():
+    """a well-formed xattr table written out by hand (two key-value blocks, the first one full), then the same table with one
+    field moved to each side of the comparison that guards it: xattr_id_table_start against bytes_used, id block locations
+    against bytes_used, descriptor index against the count, out-of-line references against the end of the table and against
+    the block size"""
+    pad = 96
+    xstart = pad
+    kv = bytearray()
+    # pair 0: user.a = "xy"
+    p0 = len(kv); kv += struct.pack("<HH", 0, 1) + b"a" + struct.pack("<I", 2) + b"xy"
+    # pair 1..4: out-of-line values; the 8 byte references are patched below
+    ool = []
+    for nm in (b"b", b"c", b"d", b"e"):
+        at = len(kv); kv += struct.pack("<HH", 0x100, 1) + nm + struct.pack("<I", 8); ool.append((at, len(kv))); kv += bytes(8)
+    # pair 5: plain
+    p5 = len(kv); kv += struct.pack("<HH", 1, 3) + b"key" + struct.pack("<I", 1) + b"v"
+    kv += det_bytes(8191 - len(kv))
+    assert len(kv) == 8191
+    tgt = len(kv)                                              # stream offset 8191: last byte of block 0
+    kv += struct.pack("<I", 3) + b"ool"                        # value header straddles the two blocks
+    blk0, blk1 = mblock(kv[:8192]), mblock(kv[8192:])
+    pos0, pos1 = 0, len(blk0)
+    descs = [((pos0 << 16) | p0, 1, 0), ((pos0 << 16) | ool[0][0], 4, 0), ((pos0 << 16) | p5, 1, 0)]
+    idblk = mblock(b"".join(struct.pack("<QII", *d) for d in descs))
+    idloc = pad + len(blk0) + len(blk1)
+    xat = idloc + len(idblk)
+    used = xat + 16 + 8
+    end_rel = used - xstart                                    # xattr_end - xattr_start
+
+    def image(refs, nids=3, loc=idloc):
+        b0 = bytearray(blk0)
+        for (at, where), r in zip(ool, refs):
+            b0[2 + where:2 + where + 8] = struct.pack("<Q", r)
+        return bytes(pad) + bytes(b0) + blk1 + idblk + struct.pack("<QII", xstart, nids, 0) + struct.pack("<Q", loc)
+
+    good = (pos0 << 16) | 8191
+    refs = [good, (pos0 << 16) | 8192, ((end_rel - 1) << 16), (end_rel << 16)]
+    walk = ["xnew", "xload"] + ["xdesc %d" % i for i in (0, 1, 2, 3, 4, 0xFFFFFFFF)]
+    vals = ["xnew", "xload", "xseek %d" % descs[1][0]] + ["xkey", "xval 256"] * 4 + ["xnew", "xload", "xall 1", "xnew", "xload", "xall 0", "xall 2", "xall 3"]
+    L = []
+    for nids, loc, fields in ((3, idloc, {}), (2, idloc, {}), (4, idloc, {}), (3, idloc, dict(xat=xat, bytes_used=xat)), (3, idloc, dict(xat=xat, bytes_used=xat + 1)),
+                              (3, idloc, dict(xat=xat, bytes_used=xat + 16)), (3, used, {}), (3, used + 1, {}), (3, used - 1, {})):
+        f = dict(bytes_used=used, idt=pad, xat=xat)
+        f.update(fields)
+        L += ["img " + hx(image(refs, nids, loc)), sb_line(**f)] + walk + (vals if not fields and loc == idloc else [])
+    # 512 descriptors fill the id block exactly: index 512 is the first one of a block that does not exist
+    many = b"".join(struct.pack("<QII", (pos0 << 16) | p0, 1, 0) for _ in range(512))
+    big = bytes(pad) + blk0 + blk1 + mblock(many)
+    xat2 = len(big)
+    big += struct.pack("<QII", xstart, 512, 0) + struct.pack("<Q", idloc)
+    L += ["img " + hx(big), sb_line(bytes_used=len(big), idt=pad, xat=xat2), "xnew", "xload"] + ["xdesc %d" % i for i in (511, 512, 513)]
+    return L
+
+
+def gen_dirlist_boundary_lines():
+    """one listing of two headers (2 + 1 entries) read with every listing size from 0 to its length + 15 (the metadata ends with the listing); headers announcing 255,
+    256 and 257 entries"""
+    pad = 96
+    ent = lambda off, nm: struct.pack("<HhHH", off, 0, 2, len(nm) - 1) + nm
+    listing = struct.pack("<III", 1, 0, 5) + ent(0, b"abc") + ent(32, b"defgh") + struct.pack("<III", 0, 0, 9) + ent(64, b"z")
+    L = []
+    img = bytes(pad) + mblock(listing) + bytes(8)
+    limit = pad + 2 + len(listing)
+    L += ["img " + hx(img), sb_line(bytes_used=len(img), idt=limit, dts=pad)]
+    for sz in range(0, len(listing) + 16):
+        L.append("dirlist 0 0 %d" % sz)
+    for off in (1, len(listing) - 1, len(listing), 8191, 8192):
+        L.append("dirlist 0 %d %d" % (off, len(listing) + 3))
+    for cnt in (254, 255, 256, 0xFFFFFFFF):
+        lst = struct.pack("<III", cnt, 0, 5) + b"".join(ent(i, b"n%03d" % i) for i in range(3))
+        img = bytes(pad) + mblock(lst)
+        L += ["img " + hx(img), sb_line(bytes_used=len(img), idt=len(img), dts=pad), "dirlist 0 0 %d" % (len(lst) + 3), "dirlist 0 0 100000"]
+    return L
+
+
+def boundary_groups():
+    return [("inode-boundary", gen_inode_boundary_lines()), ("inode-misc-boundary", gen_inode_misc_boundary_lines()),
+            ("meta-boundary", gen_meta_boundary_group()), ("data-boundary", gen_data_boundary_lines()),
+            ("super-boundary", gen_super_boundary_lines()), ("table-boundary", gen_table_boundary_lines()),
+            ("xattr-boundary", gen_xattr_boundary_group()), ("dirlist-boundary", gen_dirlist_boundary_lines())]
+
+
 def run_harness(ctx, exe, lines):
     """run the line harness with crash recovery: returns list of outputs; a crashed line gets ('CRASH', rc, stderr)"""
     out = [None] * len(lines)
@@ -684,12 +951,86 @@ def crash_site(stderr):
     return m.group(1) if m else None
 
 
-def routine_level(ctx, harness, stats):
+# Generator self-test (`sqfsmodel c05 sens`, lean/Sqfs/Model/ReaderMut.lean): every modelled comparison moved by one in each
+# direction must be told apart from the model by at least SENS_FLOOR lines of the *deterministic* boundary groups (the random
+# groups are counted too, but a floor that rests on them would depend on the seed).  Mutants that cannot be told apart by any
+# input, with the reason:
+SENS_FLOOR = 1
+SENS_EQUIVALENT = {
+    "read.guard:up": "offset > data_used never holds in the tree (failed seeks clear the reader); at offset = data_used + 1 nothing is reachable",
+    "read.diff:dn": "diff >= size and diff > size choose the same value when diff = size",
+    "stream.fragoff:dn": "frag_blk_size = frag_off fails the next test (0 < buf_used) with the same error",
+    "stream.bufused:dn": "filesz = block_size: both branches give block_size",
+    "dread.eof:up": "offset = filesz: the clip to filesz - offset = 0 returns 0 as well",
+    "dread.clip:dn": "filesz - offset = size: clipping changes nothing",
+    "dread.diff:dn": "size = diff: same value",
+    "dread.fragstart:up": "frag_off + offset = frag_blk_size fails the next test (0 < size) with the same error",
+    "inode.dirext.need:up": "an index buffer doubled one entry earlier: same status, larger allocation",
+    "inode.dirext.grow:dn": "ditto (>= instead of >)",
+    "inode.file.bufsize:up": "a larger allocation",
+    "unpack.offset:dn": "offset = used - 1 fails the header test (used - offset < 12) with the same error",
+    "unpack.offset:up": "offset = used: used - offset = 0 fails the header test with the same error",
+    "unpack.hdr:dn": "used - offset = 12: a name of at least one byte cannot fit, same error one test later",
+    "super.bsmin:up": "4095 is not a power of two (refused before)",
+    "super.bsmax:up": "2^20 + 1 is not a power of two (refused before)",
+    "super.logmin:up": "block_log = 11: block_size >= 4096 != 2^11, same error one test later",
+    "super.logmax:up": "block_log = 21: block_size <= 2^20 != 2^21, same error one test later",
+    "xval.start:up": "new_start = xattr_end is refused by the seek (window of the reader) with the same error",
+    "xval.off:up": "offset 8192 is refused by the seek (offset >= data_used) with the same error",
+    "dirlist.consume:dn": "one byte left or none: the next call ends the listing either way",
+    "dirlist.consume:up": "count = size: size - count = 0 as well",
+    "dirent.alloc:up": "a larger allocation",
+    "slink.alloc:up": "a larger allocation",
+}
+
+
+def sens_level(ctx, groups, lines, owner, model, stats):
+    """the generator self-test: which mutated models do the generated lines tell apart from the model of the tree"""
+    names = ctx.driver(["c05", "sens-mutants"], "")
+    out = ctx.driver(["c05", "sens"], "\n".join(lines) + "\n")
+    assert len(out) == len(lines), "model driver answered %d of %d lines in sens mode" % (len(out), len(lines))
+    det = {gi for gi, (kind, _) in enumerate(groups) if kind.endswith("-boundary")}
+    kills_det, kills_all = {}, {}
+    first = {}
+    stale = 0
+    for i, o in enumerate(out):
+        parts = o.split("\t")
+        if parts[0] != model[i] or len(parts) > 2:
+            stale += 1
+            if stale <= 3:
+                ctx.violation("sens:stale-copy:" + vlib.sha(lines[i])[:8],
+                              "generator self-test: the unmutated copies of lean/Sqfs/Model/ReaderMut.lean answer %r where the model answers %r on %r: the copies no longer follow the model"
+                              % (parts[2:] or parts[0], model[i], lines[i][:120]), {"kind": "self-test", "line": lines[i][:2000]}, found_input=False)
+            continue
+        for k in (parts[1].split(",") if len(parts) > 1 and parts[1] else []):
+            kills_all[k] = kills_all.get(k, 0) + 1
+            if owner[i] in det:
+                kills_det[k] = kills_det.get(k, 0) + 1
+                first.setdefault(k, lines[i][:100])
+    missing = []
+    for n in names:
+        if n in SENS_EQUIVALENT:
+            continue
+        if kills_det.get(n, 0) < SENS_FLOOR:
+            missing.append(n)
+            ctx.violation("sens:floor:" + n, "generator self-test: the deterministic boundary lines tell the mutated comparison %r apart from the model %d time(s) (floor %d; all lines: %d): "
+                          "a change of that comparison in the code would go unnoticed" % (n, kills_det.get(n, 0), SENS_FLOOR, kills_all.get(n, 0)),
+                          {"kind": "self-test", "mutant": n, "kills_deterministic": kills_det.get(n, 0), "kills_all": kills_all.get(n, 0)}, found_input=False)
+    stats["sens"] = {"mutants": len(names), "declared_equivalent": len([n for n in names if n in SENS_EQUIVALENT]),
+                     "below_floor": missing, "stale_lines": stale,
+                     "equivalent_but_told_apart": sorted(n for n in names if n in SENS_EQUIVALENT and kills_all.get(n)),
+                     "kills_deterministic": {n: kills_det.get(n, 0) for n in names if n not in SENS_EQUIVALENT},
+                     "kills_all_lines": {n: kills_all.get(n, 0) for n in names if n not in SENS_EQUIVALENT},
+                     "min_kills_deterministic": min([kills_det.get(n, 0) for n in names if n not in SENS_EQUIVALENT] or [0])}
+
+
+def routine_groups(ctx):
     groups = []
     ng = 30 if ctx.quick() else 250
     cdir = vlib.CORPUS / "C05"
     for p in sorted(cdir.glob("*.script")) if cdir.exists() else []:
         groups.append(("corpus:" + p.name, [l for l in p.read_text().splitlines() if l and not l.startswith("#")]))
+    groups += boundary_groups()
     for g in range(ng):
         groups.append(("meta", gen_meta_group(ctx.rng)))
         groups.append(("data", gen_data_lines(ctx.rng)))
@@ -705,6 +1046,11 @@ def routine_level(ctx, harness, stats):
             groups.append(("dirlist", gen_dirlist_lines(ctx.rng)))
         if g % 3 != 2:
             groups.append(("xattr", gen_xattr_group(ctx.rng)))
+    return groups
+
+
+def routine_level(ctx, harness, stats):
+    groups = routine_groups(ctx)
     lines, owner = [], []
     for gi, (kind, ls) in enumerate(groups):
         lines += ls
@@ -714,6 +1060,7 @@ def routine_level(ctx, harness, stats):
     cur = ctx.driver(["c05", "current"], text)
     impl = run_harness(ctx, harness, lines)
     assert len(model) == len(lines) == len(cur)
+    sens_level(ctx, groups, lines, owner, model, stats)
     # The reader objects keep being used after failed calls and every such line is compared (the models carry the
     # state a failed call leaves behind).  Only after the allocator refused a request the model granted (`err ALLOC`
     # from the real code, accepted below) the two sides are out of step until the object is made anew.
@@ -828,59 +1175,117 @@ class RealCodec:
             self.p.kill()
 
 
+CODEC_FLOORS = {
+    # class -> minimum number of decompressor calls of that class per compiled-in codec (self-test of the generator: a
+    # class that is not produced any more is reported, it cannot disappear silently)
+    "bomb": 20,              # honest stream that unpacks to L bytes, outsize < L <= block_size
+    "bomb:meta": 2,          # ... with outsize = 8192 < L <= block_size (a metadata buffer)
+    "announce": 40,          # payload of L <= outsize bytes whose header announces H, outsize < H <= block_size
+    "announce:+1": 4,        # ... H = outsize + 1
+    "announce:bs": 4,        # ... H = block_size
+    "announce:meta": 6,      # ... outsize = 8192 (metadata buffer), 8192 < H <= block_size
+    "announce:over-bs": 4,   # H > block_size
+    "announce:short": 4,     # H < L <= outsize (announces less than it holds)
+    "announce+bomb": 4,      # L > outsize and outsize < H <= block_size
+}
+
+
 def codec_level(ctx, harness, stats):
-    """every compiled-in block decompressor on valid, truncated and edited streams with `outsize` below, at and above the
-    real size: the return value must be negative or <= outsize (the hypothesis of the theorems), no sanitizer report"""
+    """The contract `ret < 0 or ret <= outsize` (hypothesis of every theorem about a caller of do_block) on every compiled-in
+    decompressor, for the class "outsize smaller than block_size" (metadata: 8192; last data block / fragment tail: anything):
+      * honest streams of L bytes with outsize below, at and above L (also L up to block_size: "bombs" for small buffers);
+      * hostile headers: the same payload announcing H bytes (LZMA-alone size field, xz index record and block header,
+        zstd Frame_Content_Size; CRCs made consistent) with H around outsize, between outsize and block_size, at and
+        above block_size;
+      * truncated / bit-flipped / extended streams and junk.
+    Every answer goes through `codecret` of the model driver (Spec: codecContract); no sanitizer report; a round trip with
+    outsize >= L must return L.  The classes are counted per codec and compared with CODEC_FLOORS."""
     rng = ctx.rng
     rc = RealCodec(ctx, harness)
     ids = [c for c in range(1, 7) if rc.available(c)]
     stats["codecs"] = [COMP_NAMES[c] for c in ids]
-    payloads = [bytes(100), bytes(8192), b"ab" * 2000, bytes((i * 7 + i // 13) % 251 for i in range(5000)), b"x",
-                bytes(rng.randrange(4) for _ in range(3000))]
-    lines, meta = [], []          # meta: (comp id, outsize, expected size when the call must succeed or None)
-    nmut = 6 if ctx.quick() else 40
+    quick = ctx.quick()
+    lines, meta = [], []          # meta: (comp id, outsize, expected size when the call must succeed or None, class labels)
+    nmut = 4 if quick else 30
+    klass = {c: {} for c in ids}
+
+    def add(cid, bs, outsize, blob, want, labels):
+        lines.append("cunpack %d %d %d %s" % (cid, bs, outsize, hx(blob)))
+        meta.append((cid, outsize, want, labels))
+        for lab in labels:
+            klass[cid][lab] = klass[cid].get(lab, 0) + 1
+
+    def payload(L, k):
+        # compressible but not trivial: text-like with a counter
+        unit = b"".join(b"entry %05d of block %d;" % (i * 7 + k, k) for i in range(40))
+        return (unit * (L // len(unit) + 1))[:L]
+
     for cid in ids:
-        for pl in payloads:
-            bs = 8192 if len(pl) <= 8192 else 131072
-            blob = rc.compress(cid, bs, pl)
-            if blob is None:
-                continue
-            L = len(pl)
-            for outsize in sorted({0, 1, max(L - 1, 0), L, L + 1, 8192, 2 * L + 17}):
-                lines.append("cunpack %d %d %d %s" % (cid, bs, outsize, hx(blob)))
-                meta.append((cid, outsize, L if outsize >= L else None))
-            for _ in range(nmut):
-                b = bytearray(blob)
-                k = rng.random()
-                if k < 0.25:
-                    b = b[:rng.randrange(len(b))]
-                elif k < 0.6:
-                    for _ in range(rng.randint(1, 3)):
-                        b[rng.randrange(len(b))] ^= 1 << rng.randrange(8)
-                elif k < 0.8 and len(b) > 16:
-                    # size fields: LZMA-alone header bytes 5..12, zstd frame header, gzip/xz trailers
-                    at = pick(rng, [5, 6, 8, 4, len(b) - 4, len(b) - 8, 1, 2])
-                    b[at:at + 4] = struct.pack("<I", pick(rng, [0, 1, L - 1 if L else 0, L + 1, 8192, 8193, 0x7FFFFFFF, 0xFFFFFFFF]))
-                else:
-                    b += bytes(rng.randrange(256) for _ in range(rng.randint(1, 20)))
-                outsize = pick(rng, [0, 1, max(L - 1, 0), L, 8192, 100])
-                lines.append("cunpack %d %d %d %s" % (cid, bs, outsize, hx(b)))
-                meta.append((cid, outsize, None))
-        for _ in range(nmut):
+        for bi, bs in enumerate([4096, 16384, 131072, 1048576] if quick else [4096, 8192, 16384, 32768, 131072, 1048576]):
+            Ls = sorted({1, 100, 4000, 8192, min(12000, bs), bs})
+            for li, L in enumerate(Ls):
+                pl = payload(L, li + 10 * bi)
+                blob = rc.compress(cid, bs, pl)
+                if blob is None:
+                    continue
+                # ---- honest stream, outsize around L, around the metadata buffer, around block_size
+                for outsize in sorted({0, 1, max(L - 1, 0), L, L + 1, 8191, 8192, 8193, bs - 1, bs, bs + 1}):
+                    labs = []
+                    if outsize < L <= bs:
+                        labs.append("bomb")
+                        if outsize == 8192:
+                            labs.append("bomb:meta")
+                    add(cid, bs, outsize, blob, L if outsize >= L else None, labs)
+                # ---- hostile announcements
+                outs = sorted({L, L + 1, 8192, bs - 1, bs} | ({L - 1, 1} if L > 1 else set()))
+                for outsize in outs:
+                    Hs = sorted({max(outsize - 1, 0), outsize, outsize + 1, outsize + 2, (outsize + bs) // 2, bs - 1, bs, bs + 1, 2 * bs,
+                                 max(L - 1, 0), 0, 0x7FFFFFFF, 0xFFFFFFFF})
+                    for H in Hs:
+                        for vlab, b in F.announce_variants(cid, blob, H):
+                            labs = ["announce-any"]
+                            if L <= outsize < H <= bs:
+                                labs.append("announce")
+                                if H == outsize + 1:
+                                    labs.append("announce:+1")
+                                if H == bs:
+                                    labs.append("announce:bs")
+                                if outsize == 8192:
+                                    labs.append("announce:meta")
+                            if L <= outsize and H > bs:
+                                labs.append("announce:over-bs")
+                            if H < L <= outsize:
+                                labs.append("announce:short")
+                            if L > outsize and outsize < H <= bs:
+                                labs.append("announce+bomb")
+                            add(cid, bs, outsize, b, None, labs)
+                # ---- damaged streams
+                for _ in range(nmut):
+                    b = bytearray(blob)
+                    k = rng.random()
+                    if k < 0.3:
+                        b = b[:rng.randrange(len(b))]
+                    elif k < 0.75:
+                        for _ in range(rng.randint(1, 3)):
+                            b[rng.randrange(len(b))] ^= 1 << rng.randrange(8)
+                    else:
+                        b += bytes(rng.randrange(256) for _ in range(rng.randint(1, 20)))
+                    add(cid, bs, pick(rng, [0, 1, max(L - 1, 0), L, 8192, 100, bs]), b, None, ["damaged"])
+        for _ in range(nmut * 2):
             junk = bytes(rng.randrange(256) for _ in range(pick(rng, [0, 1, 5, 13, 14, 64, 300])))
-            outsize = pick(rng, [0, 1, 100, 8192])
-            lines.append("cunpack %d %d %d %s" % (cid, 8192, outsize, hx(junk)))
-            meta.append((cid, outsize, None))
+            add(cid, 8192, pick(rng, [0, 1, 100, 8192]), junk, None, ["junk"])
     rc.close()
     out = run_harness(ctx, harness, lines)
     mon, monidx = [], []
     hist = {}
+    over = {}
     for i, (l, o) in enumerate(zip(lines, out)):
-        cid, outsize, want = meta[i]
+        cid, outsize, want, labs = meta[i]
         stats["codec_calls"] = stats.get("codec_calls", 0) + 1
         if isinstance(o, tuple):
             ctx.violation("codec-crash:%s:%s" % (COMP_NAMES[cid], vlib.sha(l)[:8]),
-                          "the %s decompressor of the tree aborted (rc=%s, %s) on a block with outsize=%d" % (COMP_NAMES[cid], o[1], crash_site(o[2] or ""), outsize),
+                          "the %s decompressor of the tree aborted (rc=%s, %s) on a block with outsize=%d (%s)" % (
+                              COMP_NAMES[cid], o[1], crash_site(o[2] or ""), outsize, ",".join(labs) or "honest stream"),
                           {"kind": "routine", "lines": [l], "rc": o[1], "stderr": (o[2] or "")[-1500:]})
             continue
         cls = (o or "none").split()[0]
@@ -898,11 +1303,26 @@ def codec_level(ctx, harness, stats):
     assert len(verdicts) == len(mon), "model driver answered %d of %d lines" % (len(verdicts), len(mon))
     for v, i in zip(verdicts, monidx):
         if v != "ok":
-            cid, outsize, _ = meta[i]
-            ctx.violation("codec-contract:%s:%s" % (COMP_NAMES[cid], vlib.sha(lines[i])[:8]),
-                          "the %s decompressor reports %s for outsize=%d: more bytes than the buffer holds (the contract every theorem about a caller of do_block assumes)"
-                          % (COMP_NAMES[cid], out[i], outsize), {"kind": "routine", "lines": [lines[i]], "impl": out[i]})
+            cid, outsize, _, labs = meta[i]
+            n = over.get(cid, 0)
+            over[cid] = n + 1
+            if n < 3:
+                ctx.violation("codec-contract:%s:%s" % (COMP_NAMES[cid], vlib.sha(lines[i])[:8]),
+                              "the %s decompressor reports %s for outsize=%d (%s): more bytes than the buffer holds (the contract every theorem about a caller of do_block assumes)"
+                              % (COMP_NAMES[cid], out[i], outsize, ",".join(labs) or "honest stream"), {"kind": "routine", "lines": [lines[i]], "impl": out[i]})
+    # ---- self-test of the generator: every class must have been produced for every codec that can express it
+    for cid in ids:
+        for lab, floor in CODEC_FLOORS.items():
+            if lab.startswith("announce") and cid not in F.ANNOUNCERS:
+                continue                      # gzip (zlib container) and lz4 (raw block) carry no size announcement
+            got = klass[cid].get(lab, 0)
+            if got < (floor if quick else 2 * floor):
+                ctx.violation("sens:codec:%s:%s" % (COMP_NAMES[cid], lab),
+                              "generator self-test: only %d decompressor calls of class %r for %s (floor %d): the codec contract is no longer exercised on that class"
+                              % (got, lab, COMP_NAMES[cid], floor), {"kind": "self-test", "codec": COMP_NAMES[cid], "class": lab, "got": got, "floor": floor},
+                              found_input=False)
     stats["codec_hist"] = hist
+    stats["codec_classes"] = {COMP_NAMES[c]: klass[c] for c in ids}
     return ids
 
 
@@ -1056,7 +1476,7 @@ def walk_level(ctx, tools, stats):
                 break                                   # paths longer than PATH_MAX: nothing to unpack or compare
             r2 = run_tool(ctx, cmd, env, 20)
             shutil.rmtree(d / "un", ignore_errors=True)
-            died = classify_tool_failure(nm, r2, img)[0] != "ok"        # sanitizer report, signal, timeout (benign qsort(NULL,0) excluded)
+            died = classify_tool_failure(nm, r2, img)[0] != "ok"        # sanitizer report, signal, timeout 
             wrong = (mm.group(1).startswith("err") and r2["rc"] == 0)
             if (died or wrong) and not big:
                 rp = {"kind": "image", "image_b64": img_rp, "cmd": [nm.split()[0]] + ([nm.split()[1]] if " " in nm else []),
@@ -1221,6 +1641,7 @@ def tool_jobs(tools, api, p, p2, scratch_dir, rng_seed):
         ("rdsquashfs -s2", [str(t["rdsquashfs"]), "-s", "/f2", str(p)]),
         ("rdsquashfs -c", [str(t["rdsquashfs"]), "-c", "/f2", str(p)]),
         ("rdsquashfs -c2", [str(t["rdsquashfs"]), "-c", "/a/b/big.bin", str(p)]),
+        ("rdsquashfs -c3", [str(t["rdsquashfs"]), "-c", "/f5", str(p)]),
         ("rdsquashfs -x", [str(t["rdsquashfs"]), "-x", "/f2", str(p)]),
         ("rdsquashfs -x2", [str(t["rdsquashfs"]), "-x", "/sub/deep", str(p)]),
         ("rdsquashfs -u", [str(t["rdsquashfs"]), "-u", "/", "-p", str(scratch_dir), "-q", str(p)]),
@@ -1244,10 +1665,7 @@ def classify_tool_failure(name, r, img):
             return None, "the API driver ended without reporting any executed call (stdout %r)" % (r.get("out", "") or "")[-120:]
     if name == "api" and rc == 3:
         return None, "the API driver could not open the image file"
-    if rc == 98 and err.count("runtime error:") == 1 and "which is declared to never be null" in err and " in fill_unpacked_files " in err:
-        # qsort(NULL, 0, ...) when an image holds no regular file (also on valid empty images): undefined by the letter of
-        # the standard, no access happens; reported in docs/design/C05.md, not a violation of C05
-        return "ok", "benign: qsort(NULL, 0)"
+    # (qsort(NULL, 0) in fill_unpacked_files used to be tolerated here; /repo 8276059 removed the call, a report is a regression now)
     if rc in (98, 99) or (isinstance(rc, int) and rc < 0) or "ERROR: AddressSanitizer" in err or "runtime error:" in err:
         if "rss limit" in err or "out of memory" in err.lower() or "allocation-size-too-big" in err:
             g = F.parse_dirs(img)
@@ -1283,6 +1701,67 @@ def classify_tool_failure(name, r, img):
                 return K_DAG, "timeout expanding shared sub-directories (%d tree nodes)" % ts
         return None, "timeout"
     return "ok", ""
+
+
+TAMPER_BS = 32768        # block size of the hostile-compressed-block images: leaves room between 8192 and block_size
+
+
+def codec_tamper_images(ctx, codec, comp_ids, stats):
+    """For every compiled-in compressor id (legacy lzma = 2 included): a valid forged image with compressed metadata and
+    data (block size 32 KiB, one file with a short compressed tail block), then one image per compressed block and per
+    way of making that block hostile towards the buffer it will be unpacked into (`outsize`: 8192 for metadata, the tail
+    length for the last data block, block_size for the others):
+      bomb      - an honest stream that unpacks to outsize + 1 / block_size (/ 2 * block_size) bytes,
+      announce  - the payload is unchanged, its header announces outsize + 1 / something in between / block_size bytes
+                  (every announcement the format has: F.ANNOUNCERS).
+    Built by wrapping the block compressor of the forge (F.TamperCodec), so the rest of the image stays consistent."""
+    out = []
+    bs = TAMPER_BS
+    counts = {}
+    for cid in comp_ids:
+        name = COMP_NAMES[cid]
+        base = F.py_codec(cid) or (lambda d, cid=cid: codec.compress(cid, bs, d))
+        seed = 1000 + cid
+
+        def build(nth=None, kind=None, H=0, variant=0):
+            tc = F.TamperCodec(base, cid, nth, kind, H, variant)
+            fg = F.sample_tree(__import__("random").Random(seed), bs, compress_meta=True, compress_data=True, comp_id=cid, codec=tc, tailfile=True)
+            ndata = len(tc.calls)
+            return fg.build(), tc, ndata
+
+        img0, tc0, ndata = build()
+        out.append(("ct_valid-%s:valid" % name, img0, []))
+        nvar = len(F.ANNOUNCERS.get(cid, []))
+        for nth, (ulen, clen) in enumerate(tc0.calls):
+            if clen is None:
+                continue                                   # stored uncompressed
+            is_meta = nth >= ndata
+            outsize = 8192 if is_meta else ulen
+            kindlab = "ct_meta" if is_meta else "ct_data"
+            plans = [("bomb", outsize + 1, 0), ("bomb", max(bs, outsize + 1) if outsize < bs else 2 * bs, 0)]
+            for v in range(nvar):
+                plans += [("announce", outsize + 1, v), ("announce", (outsize + bs) // 2 if outsize < bs else bs + 1, v), ("announce", bs if outsize < bs else 2 * bs, v)]
+            for kind, H, v in plans:
+                img, tc, _ = build(nth, kind, H, v)
+                if tc.done is None or img == img0:
+                    continue
+                out.append(("%s-%s:%s" % (kindlab, name, kind), img, ["block%d(%s,outsize=%d):%s" % (nth, "meta" if is_meta else "data", outsize, tc.done)]))
+                counts[name + ":" + kind] = counts.get(name + ":" + kind, 0) + 1
+                if outsize < bs and outsize < H <= bs:
+                    k = name + ":" + kind + ":outsize<H<=bs" + (":meta" if is_meta else ":data")
+                    counts[k] = counts.get(k, 0) + 1
+    stats["codec_tamper_images"] = counts
+    # self-test: the class of seeded C05-b1 (and its relatives) must be present for every codec
+    for cid in comp_ids:
+        name = COMP_NAMES[cid]
+        need = ["bomb:outsize<H<=bs:meta", "bomb:outsize<H<=bs:data"]
+        if cid in F.ANNOUNCERS:
+            need += ["announce:outsize<H<=bs:meta", "announce:outsize<H<=bs:data"]
+        for k in need:
+            if counts.get(name + ":" + k, 0) < 2:
+                ctx.violation("sens:tamper:%s:%s" % (name, k), "generator self-test: the forge produced %d hostile-block images of class %s for compressor %s (floor 2)"
+                              % (counts.get(name + ":" + k, 0), k, name), {"kind": "self-test", "codec": name, "class": k}, found_input=False)
+    return out
 
 
 def tool_level(ctx, tools, api, harness, stats):
@@ -1324,6 +1803,8 @@ def tool_level(ctx, tools, api, harness, stats):
         bases.append((lab, img, fg.fields))
         images.append((lab + ":valid", img, []))
         stats.setdefault("forge_compressors", []).append(COMP_NAMES[cid] + ("+meta" if cmeta else ""))
+    tampered = codec_tamper_images(ctx, codec, comp_ids, stats)
+    images += tampered
     codec.close()
     # inode mode fields whose file type bits contradict the inode type (set_mode must derive the type from the inode type:
     # a regular file presented as a symlink would have its block list printed as a C string, ...)
@@ -1382,6 +1863,10 @@ def tool_level(ctx, tools, api, harness, stats):
                 jobs = [j for j in jobs if j[0] in ("rdsquashfs -d", "sqfs2tar")]
             elif lab.startswith("t1_"):
                 jobs = [j for j in jobs if j[0] == "rdsquashfs -d"]
+            elif lab.startswith("ct_meta"):
+                jobs = [j for j in jobs if j[0] in ("rdsquashfs -l", "rdsquashfs -d", "rdsquashfs -x", "rdsquashfs -s", "sqfs2tar", "api")]
+            elif lab.startswith("ct_data"):
+                jobs = [j for j in jobs if j[0] in ("rdsquashfs -c", "rdsquashfs -c3", "rdsquashfs -u", "sqfs2tar", "sqfsdiff", "api")]
             if quick and idx >= nvalid and idx % 3 != 0:
                 # the option variants of unpack / sqfs2tar: every valid image, a third of the mutated ones
                 jobs = [j for j in jobs if j[0] not in ("rdsquashfs -uXCOT", "sqfs2tar -d", "sqfs2tar -dk", "sqfs2tar -r")]
@@ -1496,7 +1981,8 @@ def run(ctx):
                 "compressed with a toy codec announcing 0..>outsize bytes, truncated images) through the real routines and the model; "
                 "non-trivial = distinct line the real code answers with an error. walk level: random directory graphs with cycles, shared "
                 "sub-directories and colliding inode numbers. tool level: forged valid images + gensquashfs images, one to three on-disk "
-                "fields set to boundary/neighbour/random values or 1-4 byte-level edits, through 10 tool invocations + the API driver",
+                "fields set to boundary/neighbour/random values or 1-4 byte-level edits, through 17 tool invocations + the API driver; hostile compressed blocks (bomb / size announcement between outsize and block_size) for every compressor id. "
+                "generator self-test: every modelled comparison moved by one (lean/Sqfs/Model/ReaderMut.lean) must be told apart by the deterministic boundary lines",
         "routine_lines": stats["lines"], "routine_ops": stats.get("routine_ops"), "routine_crashes": stats["crashes"],
         "routine_disagreements": stats["disagreements"], "routine_lines_not_compared_after_refused_allocation": stats["post_failure_lines"],
         "routine_failed_calls_with_the_object_used_on_and_compared": stats.get("failed_calls_then_used_on", 0),
@@ -1506,6 +1992,7 @@ def run(ctx):
         "nesting_limit_of_tree": stats.get("nesting_limit_of_tree"), "known_walk_differences": stats["known_walk"],
         "tool_images": stats["tool_images"], "tool_images_valid": stats["tool_images_valid"], "tool_runs": stats["tool_runs"],
         "tool_outcomes": stats.get("tool_hist"), "known_tool_failures": stats["known_tool"],
+        "generator_self_test": stats.get("sens"), "decompressor_classes": stats.get("codec_classes"), "hostile_block_images": stats.get("codec_tamper_images"),
         "decompressor_calls": stats.get("codec_calls", 0), "decompressors": stats.get("codecs"), "decompressor_outcomes": stats.get("codec_hist"),
         "decompressor_roundtrips": stats.get("codec_roundtrips", 0), "forge_compressors": stats.get("forge_compressors"),
         "api_calls_executed": stats.get("api_calls", 0), "api_errors_returned": stats.get("api_errors_returned", 0),
@@ -1573,5 +2060,24 @@ def replay(ctx, path):
         bad = r["rc"] in (98, 99, "timeout") or (isinstance(r["rc"], int) and r["rc"] < 0)
         print("reproduces:", bad)
         return 1 if bad else 0
-    print("replay file names a broken obligation, no input to replay:", json.dumps(rp)[:500])
+    if rp.get("kind") == "self-test" and rp.get("mutant"):
+        # generator self-test: regenerate the lines of the recorded seed and count again
+        ctx.rng = __import__("random").Random("%s/%d" % (ctx.prop, body.get("seed", 0)))
+        ctx.tier = body.get("tier", ctx.tier)
+        groups = routine_groups(ctx)
+        lines, owner = [], []
+        for gi, (kind, ls) in enumerate(groups):
+            lines += ls
+            owner += [gi] * len(ls)
+        model = ctx.driver(["c05"], "\n".join(lines) + "\n")
+        stats = {}
+        before = len(ctx.violations)
+        sens_level(ctx, groups, lines, owner, model, stats)
+        n = stats["sens"]["kills_deterministic"].get(rp["mutant"])
+        print("mutant %s: told apart by %s deterministic line(s), %s line(s) in all (floor %d)" % (
+            rp["mutant"], n, stats["sens"]["kills_all_lines"].get(rp["mutant"]), SENS_FLOOR))
+        bad = rp["mutant"] in stats["sens"]["below_floor"]
+        print("reproduces:", bad)
+        return 1 if bad else 0
+    print("replay file names a broken obligation or a generator self-test, no input to replay (run the check again):", json.dumps(rp)[:500])
     return 1
